@@ -85,9 +85,9 @@ const RegexpMustKeepOutside = "^$\\.*+?()[]{}|/" + "fnrtv" + "dDsSwWpP" + "bB" +
 const RegexpMustKeepInClass = "\\]" + "fnrtv" + "dDsSwWpP" + "b" + "cxu" + "0123456789"
 
 // ECMA-262 (2022) §12.7.2 reserved words, strict-mode reserved words, and contextual
-// words that are not safe as a generated binding name everywhere.
+// words that are not safe as a generated binding name everywhere. (`eval` and `arguments` are
+// restricted identifiers, not reserved words; a generated name of that length is out of reach.)
 var JSReservedWords = set(`
  await break case catch class const continue debugger default delete do else enum export extends false finally for
  function if import in instanceof new null return super switch this throw true try typeof var void while with yield
- let static implements interface package private protected public
- arguments eval`)
+ let static implements interface package private protected public`)
